@@ -111,6 +111,21 @@ def _ctx(scn, idx):
             elif own_c and peer_c:
                 reasons.add('complete')
         sig['open_reasons'] = sorted(reasons)
+        # did the library itself cancel the local producer of a still-registered stream although no CANCEL arrived on it?
+        # (then that direction can never complete: different from a stream retained while the application is still sending)
+        stuck = False
+        for s in e.get('streams', []):
+            mine = [x for x in ev[:idx] if x['ep'] == e['ep'] and x.get('sid') == s and x['ev'] in ('enq', 'rx')]
+            req = [x for x in mine if x['ft'].startswith('REQUEST_') and x['ft'] != 'REQUEST_N']
+            if not req:
+                continue
+            iid = req[0].get('pid') if req[0]['ev'] == 'enq' else (req[0].get('dpid') or req[0].get('mpid'))
+            role = 'req' if req[0]['ev'] == 'enq' else 'resp'
+            cancelled = any(x['ev'] == 'cb_pub_cancel' and x.get('iid') == iid and x.get('role') == role
+                            and x['ep'] == e['ep'] for x in ev[:idx])
+            if cancelled and not any(x['ev'] == 'rx' and x['ft'] == 'CANCEL' for x in mine):
+                stuck = True
+        sig['prod_cancelled_without_cancel'] = stuck
     if e.get('ev') in ('cb_next', 'cb_complete', 'cb_error', 'cb_future'):
         prior = [('cb_next_complete' if x['ev'] == 'cb_next' else x['ev']) for x in ev[:idx - 1]
                  if x.get('iid') == e.get('iid') and x.get('role') == e.get('role')
